@@ -405,3 +405,10 @@ func vh_C02_L7_t3_runs_while_data_in_flight() {
 func vh_C02_L8_backoff_capped_by_configured_rto_max() { vh_C19_L3_armed_duration() }
 func vh_C02_L8_t3_survives_stop_expiry_races()        { vh_C19_L3_retry_law() }
 func vh_C02_L8_skip_never_covers_reliable_data()      { vh_C07_L2_advance_only_over_abandoned() }
+
+// C02.L9: obligations of other properties that C02's progress argument rests on: delayed-ack
+// timer callbacks run without the timer mutex (= C19.L6), ordered reassembly across the SSN
+// wrap (= C01.L5), the timer goroutine fires its callbacks with no lock held (= C20.L6).
+func vh_C02_L9_ack_timer_callback_unlocked()   { vh_C19_L6_ack_timer_interleavings() }
+func vh_C02_L9_ordered_reassembly_any_ssn()    { vh_C01_L5_ordered_reassembly() }
+func vh_C02_L9_timer_loop_callbacks_unlocked() { vh_C20_L6_timer_loop_fires_callbacks_unlocked() }
